@@ -278,6 +278,9 @@ func (w *c13World) Finish(x *h.Exec) *h.Finding {
 		if !strings.HasPrefix(text, "<"+rcpt+">") {
 			return h.F("c13-not-attributed", "%s: reply %d does not name recipient %s: %s", desc, i, rcpt, r.String())
 		}
+		if strings.Count(text, "<ok") != 1 {
+			return h.F("c13-not-attributed", "%s: reply %d for %s names a recipient more than once or names another one as well: %s", desc, i, rcpt, r.String())
+		}
 		if r.Code != codes[i] || (frags[i] != "" && !strings.Contains(text, frags[i])) {
 			return h.F("c13-wrong-status", "%s: reply %d for %s is %s, want code %d %q; all: [%s]", desc, i, rcpt, r.String(), codes[i], frags[i], render())
 		}
